@@ -180,4 +180,10 @@ theorem C04_sorted (fn : Option Nat) (reverse : Bool) (s fuel : Nat) (w : World)
   scoped_then_frame_released s _ _
     (fun keyed => srcsFrame_bind (srcsFrame_liftExc _) (fun r => srcsFrame_pure _)) w h
 
+theorem C04_set (s fuel : Nat) (w : World) (h : (Impl.set s fuel w).1 ≠ .error .outOfFuel) :
+    Released ((Impl.set s fuel w).2.srcs s) := scopedIter_released s _ w h
+
+theorem C04_dict (s fuel : Nat) (w : World) (h : (Impl.dict s fuel w).1 ≠ .error .outOfFuel) :
+    Released ((Impl.dict s fuel w).2.srcs s) := scopedIter_released s _ w h
+
 end AsyncVerif
